@@ -203,6 +203,18 @@ def run(ctx: core.Ctx):
                 d2 = F(0) if "AlgebraicProduct" in (ia, ib) else F(1, 4)
                 acts = [{"term": dict(t), "d": from_number(F(1, 2)), "impl": ia}, {"term": dict(t), "d": from_number(d2), "impl": ib}]
                 file_cases.append({"acts": acts, "aggr": rng.choice(["Maximum", "Maximum", "BoundedSum"]), "res": rng.choice([4, 8]), "lo": from_number(F(0)), "hi": from_number(F(1))})
+    # a first activation that already reaches 1 at every sample point, followed by others: nothing may be skipped as "absorbed"
+    # (UnboundedSum keeps adding; the bounded ones stay at 1)
+    full = {"name": "full", "k": "Rectangle", "p": [from_number(F(-1)), from_number(F(2))], "h": from_number(F(1))}
+    for tj, t0 in enumerate(pal):
+        for ag in ("UnboundedSum", "BoundedSum", "Maximum"):
+            if ctx.quick and ag != "UnboundedSum" and tj % 3:
+                continue
+            t = dict(t0)
+            t["p"] = [from_number(F(v)) for v in t["p"]]
+            t["h"] = from_number(F(t["h"]))
+            acts = [{"term": dict(full), "d": from_number(F(1)), "impl": "Minimum"}, {"term": t, "d": from_number(F(3, 4)), "impl": "Minimum"}]
+            file_cases.append({"acts": acts, "aggr": ag, "res": 8, "lo": from_number(F(0)), "hi": from_number(F(1))})
     gfs = ctx.tlc_cases("MC_Integral", write_cfg("File_Integral", head.format(ff="TRUE", e="TRUE", ml=0) + "".join(f"INVARIANT {i}\n" for i in INVS) + "INVARIANT EmitInv\nCHECK_DEADLOCK FALSE\n"),
                         file_cases, label="integral", workers=8, timeout=3000)
     nfile = 0
